@@ -254,6 +254,41 @@ func c15RegCheck(l *explore.Local, _ *c15Env, q c15Reg) *explore.Fail {
 	return nil
 }
 
+// c15Other: while scene A is being drawn, At machine cycles after the LCD was switched on, the guest writes to a
+// register that has nothing to do with the picture (LY, which is read-only; LYC; STAT; IF; DIV; JOYP; a sound register;
+// SB). Video registers, VRAM and OAM stay constant, so this frame and the next must equal the composition.
+type c15Other struct {
+	A   c15Scene `json:"a"`
+	Reg uint16   `json:"reg"`
+	Val uint8    `json:"val"`
+	At  int      `json:"at"`
+}
+
+func c15OtherCheck(l *explore.Local, _ *c15Env, q c15Other) *explore.Fail {
+	e := &c15Env{}
+	e.load(q.A.Set)
+	m := e.m
+	sc := c15Setup(e, q.A)
+	m.Map.Write(0xff40, sc.LCDC)
+	for i := 0; i < q.At; i++ {
+		m.P.EndMachineCycle()
+	}
+	m.Map.Write(q.Reg, q.Val)
+	for fr := 1; fr <= 2; fr++ {
+		if !c15ToVBlank(m) {
+			return explore.Failf("harness: the PPU never reaches v-blank", "LCDC=%02x", sc.LCDC)
+		}
+		if f := c15Compare(e, &sc, q.A, fmt.Sprintf("frame %d, %04x<-%02x written %d cycles after the LCD was switched on (line %d, cycle %d of it): ", fr, q.Reg, q.Val, q.At, (q.At+2)/114, (q.At+2)%114)); f != nil {
+			return f
+		}
+		l.Trans(1)
+	}
+	l.Eval(1)
+	pix := m.P.Frame().Pix
+	l.Outcome(explore.HashBytes(pix[:160*4*8]) ^ explore.HashBytes(pix[160*4*48:160*4*56]))
+	return nil
+}
+
 // c15Seq: on a fresh emulator, scene A is displayed for OffAt machine cycles, the LCD is switched off
 // (wherever in the frame that is), scene B is set up and displayed; B's first and following frames are compared.
 type c15Seq struct {
@@ -323,7 +358,7 @@ func c15Classify(sc *ref.Scene, want *[144][160]uint8, x, y int, got uint8) stri
 func init() {
 	register("C15", "model_checking", func(c *Ctx) {
 		if c.R != nil {
-			c.R.Rule = "each scene (registers, VRAM, OAM written through the Mapper with the LCD off, then LCD on for one frame of real PPU cycles) is compared pixel by pixel (160x144 RGBA) with the reference DMG composition; the scene family is a union of complete products: background/window product (tile map x addressing x SCX x SCY x window position x window map x palettes), single-object product (X at every clipping amount on the left/right edges x Y at every clipping amount on the top/bottom edges x flips x palette x priority), object-pair product (dx, dy, priorities, transparency), ten objects on a line; one VRAM byte, or one video register, rewritten in v-blank between two frames of a running display; tile data is one of 3 fixed sets of 384 distinct patterns selected by VERIF_SEED"
+			c.R.Rule = "each scene (registers, VRAM, OAM written through the Mapper with the LCD off, then LCD on for one frame of real PPU cycles) is compared pixel by pixel (160x144 RGBA) with the reference DMG composition; the scene family is a union of complete products: background/window product (tile map x addressing x SCX x SCY x window position x window map x palettes), single-object product (X at every clipping amount on the left/right edges x Y at every clipping amount on the top/bottom edges x flips x palette x priority), object-pair product (dx, dy, priorities, transparency), ten objects on a line; one VRAM byte, or one video register, rewritten in v-blank between two frames of a running display; a write to a register that does not belong to the picture (LY, LYC, STAT, IF, IE, DIV, JOYP, sound, serial, TAC) at 35 positions of the frame being drawn; tile data is one of 3 fixed sets of 384 distinct patterns selected by VERIF_SEED"
 			c.R.Assumptions = []string{"preconditions of the statement: LCD and background enabled, 8x8 objects, at most 10 per line, OAM in X order, WX 7-166, constant scene", "quick tier uses a reduced scroll/window value set; every product that is enumerated is enumerated completely"}
 		}
 		set := ((c.Seed % 3) + 3) % 3
@@ -527,6 +562,34 @@ func init() {
 						}
 					}
 				}, func() *c15Env { return nil }, c15RegCheck)
+		}
+		// a write to a register that has nothing to do with the picture, in the middle of the frame
+		{
+			objsD := []c15Obj{{16 + 52, 8 + 40, 5, 0x00}, {16 + 52, 8 + 120, 6, 0x10}, {16 + 50, 8 + 150, 9, 0x80}, {16 + 1, 8 + 30, 10, 0x00}, {16 + 140, 8 + 60, 11, 0x20}}
+			otherScenes := []c15Scene{
+				{LCDC: 0x13, BGP: 0xe4, OBP0: 0xe4, OBP1: 0x1b, SCX: 3, SCY: 5, Set: set, Objs: objsD},
+				{LCDC: 0x73, BGP: 0x1b, OBP0: 0xe4, OBP1: 0x6c, WX: 47, WY: 30, SCX: 0, SCY: 0, Set: set, Objs: objsD},
+			}
+			explore.Product(c.R, "unrelated-write-mid-frame", explore.PartOpt{Bound: "one write, this frame and the next compared; fresh emulator per case",
+				Domain: "2 scenes x 13 writes (LY x 2, LYC, STAT x 2, IF, IE, DIV, JOYP, NR12, NR52, SB, TAC) x lines {0, 1, 52, 54, 143} x cycle {1, 10, 19, 24, 40, 60, 100} of the line"},
+				func(yield func(c15Other) bool) {
+					ws := [][2]uint16{{0xff44, 0x00}, {0xff44, 0x90}, {0xff45, 0x34}, {0xff41, 0x78}, {0xff41, 0x00}, {0xff0f, 0x00}, {0xffff, 0x1f}, {0xff04, 0x00}, {0xff00, 0x10}, {0xff12, 0xf0}, {0xff26, 0x00}, {0xff01, 0x55}, {0xff07, 0x05}}
+					for _, a := range otherScenes {
+						for _, w := range ws {
+							for _, line := range []int{0, 1, 52, 54, 143} {
+								for _, o := range []int{1, 10, 19, 24, 40, 60, 100} {
+									at := line*114 - 2 + o
+									if at < 1 {
+										at = o
+									}
+									if !yield(c15Other{A: a, Reg: w[0], Val: uint8(w[1]), At: at}) {
+										return
+									}
+								}
+							}
+						}
+					}
+				}, func() *c15Env { return nil }, c15OtherCheck)
 		}
 		// scene after scene on one instance: the LCD is switched off at many points of scene A's frame
 		offs := []int{-1, 1, 19, 20, 61, 113, 114, 10*114 + 30, 72*114 + 5, 100*114 + 70, 143*114 + 113, 144 * 114, 150*114 + 7, 17555, 17556, 17556 + 114*80 + 3}
